@@ -12,8 +12,12 @@ from ..common import CheckResult, BASE_ASSUMPTIONS, HarnessError
 from ..findings import Failure
 from ..model import header42
 
-CLASSES = ["clean", "notice", "erroneous", "fatal", "mixed", "mixedrev"]
-# mixed: a Notice positioned before an Error in the same file; mixedrev: the Error first
+CLASSES = ["clean", "notice", "erroneous", "fatal", "mixed", "mixedrev", "fataleof"]
+# mixed: a Notice positioned before an Error in the same file; mixedrev: the Error first;
+# fataleof: the unparsable tokens are the very last bytes of the file (no newline after them)
+# what each class is *by construction* (the reference; the tool's own isolated run is checked against it)
+EXPECT = {"clean": "OK", "notice": "OK", "erroneous": "Error", "mixed": "Error", "mixedrev": "Error", "fatal": "fatal",
+          "fataleof": "fatal"}
 FUNC = "int\tft_value(int n)\n{\n\treturn (n + 1);\n}\n"
 HBODY = "#ifndef %s\n# define %s\n\nint\tft_value(int n);\n%s\n#endif\n"
 
@@ -31,6 +35,8 @@ def content(cls, fname):
             return hdr + "int\tg_counter;\n\n" + FUNC.replace("return (n + 1);", "return (n + 1); ")
         if cls == "mixedrev":
             return hdr + "int\tG_first;\nint\tg_counter;\n\n" + FUNC
+        if cls == "fataleof":
+            return hdr + FUNC + "]"
         return hdr + "int\tft_value(int n)\n{\n\treturn ((n + 1);\n}\n"
     g = fname.upper().replace(".", "_")
     if cls == "clean":
@@ -43,6 +49,8 @@ def content(cls, fname):
         return hdr + (HBODY % (g, g, "extern int\tg_counter; ")).replace("int\tft_value(int n);\n", "extern int\tg_first;\n")
     if cls == "mixedrev":
         return hdr + (HBODY % (g, g, "extern int\tg_counter;")).replace("int\tft_value(int n);", "int\tft_value(int n); ")
+    if cls == "fataleof":
+        return hdr + HBODY % (g, g, "") + ") )"
     return hdr + (HBODY % (g, g, "")).replace("(int n);", "((int n);")
 
 
@@ -66,7 +74,12 @@ _iso_cache = {}
 
 
 def isolated_verdict(cls, fname):
-    """Reference: verdict of the file computed in isolation by the real pipeline."""
+    """Reference: what the class is by construction."""
+    return EXPECT[cls]
+
+
+def real_isolated_verdict(cls, fname):
+    """The verdict of the file computed in isolation by the real pipeline (must equal the class's construction)."""
     k = (cls, fname)
     if k not in _iso_cache:
         r = impl.run_text(fname, content(cls, fname))
@@ -185,8 +198,14 @@ def run(tier, seed):
                 if tier == "thorough" or n <= 2:
                     tasks.append(("cwd", ms))
     tasks += [("emptydir", (), "sub"), ("nonc", (), "sub"), ("cwd", ())]
-    res = explore.pmap(seq_task, tasks, chunksize=4)
     failures = []
+    for cls in CLASSES:
+        for fname in members(cls):
+            got = real_isolated_verdict(cls, fname)
+            if got != EXPECT[cls]:
+                failures.append(Failure("C04", f"class:{cls}:alone={got}", f"{fname} is {EXPECT[cls]} by construction; analysed alone "
+                                                                           f"the pipeline says {got}", {"task": ["args", [cls]]}))
+    res = explore.pmap(seq_task, tasks, chunksize=4)
     for t, (probs, outcome) in zip(tasks, res):
         st.outcomes.add(outcome)
         st.bump("mode:" + t[0])
@@ -208,8 +227,8 @@ def run(tier, seed):
              "each run through main() in process, lengths <= 2 and every failing case also in a real subprocess; "
              "distinct = distinct (exit status, verdict list) outcomes",
         exhaustive=True, bounds={"max_sequence_length": maxlen, "classes": CLASSES},
-        alphabet={"classes": 4, "members_per_class": 2, "modes": 5},
-        assumptions=BASE_ASSUMPTIONS + ["reference model: verdict of a file = its isolated run; exit 0 iff all selected files OK"],
+        alphabet={"classes": len(CLASSES), "members_per_class": 2, "modes": 5},
+        assumptions=BASE_ASSUMPTIONS + ["reference model: verdict of a file = what its class is by construction (checked against its isolated run); exit 0 iff all selected files OK"],
         distinct=len(st.outcomes),
     )
 
